@@ -35,17 +35,20 @@ lane() {
     v=$(echo "$out" | grep -c '^VIOLATION')
     rp=$(echo "$out" | grep '^VIOLATION' | head -1 | sed 's/.*replay=\([^ ]*\).*/\1/')
     nf=$(echo "$out" | grep -c 'no-failing-input-found')
+    nfail=$(echo "$out" | sed -n 's/.*oracle failures \([0-9]*\).*/\1/p' | tail -1); ndis=$(echo "$out" | sed -n 's/.*disagreements \([0-9]*\).*/\1/p' | tail -1)
+    thin=""; [ -n "$nfail" ] && [ "$nfail" -gt 0 ] && [ "$nfail" -lt 10 ] && thin=" THIN(only $nfail failing inputs)"
     if [ "$v" = "0" ]; then echo "$id $prop: MISSED (rc $rc)"; continue; fi
     if [ "$nf" != "0" ]; then echo "$id $prop: caught, no failing input"; continue; fi
     r=$(cd $L/verif && ./check $prop --replay $rp 2>&1 | tail -1)
     case "$r" in
-      *passes*) echo "$id $prop: caught; replay passes on the clean tree";;
+      *passes*) echo "$id $prop: caught; replay passes on the clean tree [oracle failures ${nfail:-?}, disagreements ${ndis:-?}]$thin";;
       *) echo "$id $prop: caught; REPLAY FAILS ON THE CLEAN TREE ($rp) -> $(echo $r | cut -c1-120)";;
     esac
   done
 }
 i=0; declare -a buckets
 for id in $ids; do k=$(( i % K + 1 )); buckets[$k]="${buckets[$k]} $id"; i=$((i+1)); done
+rm -f /tmp/lane/*.out
 for k in $(seq 1 $K); do lane $k ${buckets[$k]} > /tmp/lane/$k.out 2>&1 & done
 wait
 cat /tmp/lane/*.out | sort > /tmp/lane/ALL.out
